@@ -97,16 +97,16 @@ def census(ctx, events_path, expect, families=False):
         fam = e.get('fam', '')
         if fam.startswith('seq_') and e.get('k', 0) >= 2:
             grp[('seq', e['op'], e['ty'])] += 1
-        for pre in ('sweep', 'wilk', 'large_'):
+        for pre in ('sweep', 'wilk', 'large_', 'rowcol', 'st_'):
             if fam.startswith(pre):
                 grp[(pre, e['op'], e['ty'])] += 1
-        if 'sunits' in e or 'srunits' in e:
+        if 'sunits' in e or 'srunits' in e or 'cunits' in e or 'crunits' in e:
             grp[('sharp', e['op'], e['ty'])] += 1
         if fam.startswith('ill_') and '+b_A' in fam:
             grp[('ill', e['op'], e['ty'])] += 1
         if fam.startswith(HARD) and (e['ty'] == 'rat' or fam.startswith(('uscale', 'bal', 'tiny'))):
             grp[('hard', e['op'], e['ty'])] += 1
-        for k in ('units_m', 'runits_m', 'lunits_m', 'sunits_m', 'srunits_m'):
+        for k in ('units_m', 'runits_m', 'lunits_m', 'sunits_m', 'srunits_m', 'cunits_m', 'crunits_m', 'sdunits_m'):
             if k in e:
                 kk = '%s.%s.%s' % (e['op'], k, e['ty'])
                 worst[kk] = max(worst[kk], e[k])
@@ -121,7 +121,7 @@ def census(ctx, events_path, expect, families=False):
         if families and k[0] in ('solve', 'agree') and k[1] != 'rat' and grp[('ill',) + k] == 0:
             raise vlib.ToolError('no ill-conditioned %s/%s event in %s' % (k[0], k[1], events_path))
         if families and k[1] != 'rat':
-            need = ['sweep', 'wilk'] + (['large_'] if k[0] in ('solve', 'agree') else []) + (['sharp'] if k[0] in ('solve', 'agree', 'inverse') else [])
+            need = ['sweep', 'wilk', 'rowcol', 'st_'] + (['large_'] if k[0] in ('solve', 'agree') else []) + (['sharp'] if k[0] in ('solve', 'agree', 'inverse') else [])
             miss = [g for g in need if grp[(g,) + k] == 0]
             if miss:
                 raise vlib.ToolError('no %s %s/%s event in %s' % (miss, k[0], k[1], events_path))
